@@ -62,6 +62,15 @@ def base_opts(mode, style):
         g['java']['package'] = 'org.other.pkg'
         g['objc']['type_prefix'] = 'PD'
         g['cpp']['identifier'] = {'type': 'snake_case'}
+    if style == 2:
+        # every free-text option of every generator away from its default (include prefixes, extensions, prefixes, namespaces)
+        g['cpp'].update(namespace='lib::core', include_prefix='libinc', header_extension='hxx', source_extension='cxx',
+                        identifier={'type': {'style': 'PascalCase', 'prefix': 'T'}, 'file': 'snake_case', 'method': 'camelCase'})
+        g['java'].update(package='org.rich.pkg', function_prefix='Fn', identifier={'method': 'snake_case'})
+        g['jni'].update(namespace='rich::jni', include_prefix='jnipfx', include_cpp_prefix='cpppfx', header_extension='hh')
+        g['objc'].update(type_prefix='RX', header_extension='hh', strict_protocols=True)
+        g['objcpp'].update(namespace='rich::objcpp', header_extension='hh')
+        g['cppcli'].update(namespace='Rich::Cli', include_cpp_prefix='cpppfx', nullability_attributes=False)
     return {'generate': g}
 
 
@@ -73,13 +82,13 @@ def ctree(v):
 
 def run(ctx):
     r = random.Random(ctx.rng.random())
-    combos = [(f, mode, style) for f in FEATURES for mode in ('single', 'per-type') for style in (0, 1)]
+    combos = [(f, mode, style) for f in FEATURES for mode in ('single', 'per-type') for style in (0, 1, 2)]
     if not ctx.thorough:
-        combos = [c for c in combos if c[2] == 0 or c[0] in ('record-field', 'interface-params', 'throws-extern-domain')]
+        combos = [c for c in combos if c[2] == 0 or c[0] in ('record-field', 'interface-params', 'throws-extern-domain') or (c[2] == 2 and c[1] == 'single' and c[0] in ('interface-results', 'function-uses', 'flags-field'))]
     # exporter runs (one per mode/style)
     exp_cases, keys = [], []
     for mode in ('single', 'per-type'):
-        for style in (0, 1):
+        for style in (0, 1, 2):
             exp_cases.append({'files': {'e.pydjinni': LIB}, 'options': base_opts(mode, style), 'ops': [['parse', 'e.pydjinni'], ['generate', 'yaml']],
                               'keep_content': True, 'timeout_s': 60})
             keys.append((mode, style))
